@@ -440,12 +440,69 @@ func c23GenInput(rt *rapid.T) *c23Input {
 
 // ---------------------------------------------------------------- Add* builders
 
-func c23Build(f func(b *cryptobyte.Builder)) (out []byte, err error, panicked any) {
-	defer func() { panicked = recover() }()
-	var b cryptobyte.Builder
-	f(&b)
-	out, err = b.Bytes()
-	return
+// c23BuildIn runs f on a Builder in one of several surroundings and returns
+// the bytes that f contributed: 0 a fresh Builder; 1 after other output;
+// 2 inside an ASN.1 SEQUENCE child with a sibling after it; 3 a (roomy) fixed-size Builder
+// that already holds bytes; 4 inside a 16-bit length-prefixed child.
+func c23BuildIn(ctx int, f func(b *cryptobyte.Builder)) (out []byte, err error, panicked any) {
+	defer func() {
+		if p := recover(); p != nil {
+			panicked = p
+		}
+	}()
+	var b *cryptobyte.Builder
+	switch ctx {
+	case 3:
+		b = cryptobyte.NewFixedBuilder(append(make([]byte, 0, 2048), 0x99, 0x98))
+	default:
+		b = &cryptobyte.Builder{}
+	}
+	switch ctx {
+	case 0, 3:
+		f(b)
+	case 1:
+		b.AddUint16(0x9998)
+		f(b)
+	case 2:
+		b.AddASN1(cbasn1.SEQUENCE, func(c *cryptobyte.Builder) {
+			c.AddASN1NULL()
+			f(c)
+			c.AddASN1Boolean(true)
+		})
+	case 4:
+		b.AddUint16LengthPrefixed(func(c *cryptobyte.Builder) {
+			f(c)
+			c.AddUint8(0x77)
+		})
+	}
+	all, err := b.Bytes()
+	if err != nil {
+		return nil, err, nil
+	}
+	bad := func() ([]byte, error, any) {
+		return nil, nil, fmt.Sprintf("surrounding output damaged (context %d): %x", ctx, all)
+	}
+	switch ctx {
+	case 0:
+		out = all
+	case 1, 3:
+		if len(all) < 2 || all[0] != 0x99 || all[1] != 0x98 {
+			return bad()
+		}
+		out = all[2:]
+	case 2:
+		t := rc.ReadTLV(all)
+		if !t.OK || t.Tag != rc.TagSequence || len(t.Rest) != 0 || len(t.Content) < 5 || !bytes.Equal(t.Content[:2], []byte{5, 0}) || !bytes.Equal(t.Content[len(t.Content)-3:], []byte{1, 1, 0xff}) {
+			return bad()
+		}
+		out = t.Content[2 : len(t.Content)-3]
+	case 4:
+		if len(all) < 3 || int(all[0])<<8|int(all[1]) != len(all)-2 || all[len(all)-1] != 0x77 {
+			return bad()
+		}
+		out = all[2 : len(all)-1]
+	}
+	return out, nil, nil
 }
 
 // c23CheckBuilders draws values for the Add* methods and checks the emitted encodings.
@@ -484,6 +541,9 @@ func c23CheckBuilders(rt *rapid.T, c *ev.Collector) {
 		return out
 	}
 	cls := ""
+	ctx := uni(rt, "builderContext", 5)
+	c23Build := func(f func(b *cryptobyte.Builder)) ([]byte, error, any) { return c23BuildIn(ctx, f) }
+	c.Class(fmt.Sprintf("build-context:%d", ctx))
 	switch k := uni(rt, "builder", 13); k {
 	case 0, 1: // AddASN1Int64 / WithTag / Enum
 		bv := c23IntBoundaries[uni(rt, "boundary", len(c23IntBoundaries))]
